@@ -179,4 +179,23 @@ VInit == /\ Init /\ hist = <<>>
 VSpec == VInit /\ [][FALSE]_<<vars, hist, vec>>
 EmitVec == LET c == VConn(vec.v)  p == VPub(vec.v)
            IN Scn(ThreeOrders(c, p, vec.rad))
+
+(***************************************************************************)
+(* Disconnections below the depth (C22, exhaustive over a class menu): a   *)
+(* vector of classes in which a bin may mix reachable and unreachable      *)
+(* peers; on every vector with a positive depth one reachable and one      *)
+(* unreachable peer of every bin is disconnected (Disconnected, then       *)
+(* DisconnectForce), each observed immediately and then re-connected.      *)
+(***************************************************************************)
+DClasses == {<<0,0>>, <<GQ,GQ>>, <<GQ+1,GQ>>, <<GQ+1,GQ+1>>, <<GQ+2,GQ+1>>}
+DInit == /\ Init /\ hist = <<>>
+         /\ vec \in [v : [VBins -> DClasses], rad : {MaxPO}]
+DSpec == DInit /\ [][FALSE]_<<vars, hist, vec>>
+MaxId(S) == CHOOSE x \in S : \A y \in S : y[2] <= x[2]
+Reps(c, p) == UNION {(IF BinOf(p, b) = {} THEN {} ELSE {MaxId(BinOf(p, b))})
+                     \cup (IF BinOf(c \ p, b) = {} THEN {} ELSE {MaxId(BinOf(c \ p, b))}) : b \in VBins}
+DiscOps(x) == <<[op |-> "disconnected", p |-> x], OConn(x, TRUE), [op |-> "force", p |-> x], OConn(x, TRUE)>>
+EmitDisc == LET c == VConn(vec.v)  p == VPub(vec.v)
+            IN RefDepth(c, p, vec.rad, GQ) > 0
+                 => Scn(BuildAsc(c, p, vec.rad) \o Flat(MapSeq(Asc(Reps(c, p)), DiscOps)))
 =============================================================================
